@@ -516,6 +516,12 @@ def jobs(tier):
     from harness import C07_rawsvg
 
     js += C07_rawsvg.jobs(tier)  # untouched SVG: one record per glyph, in glyph id order
+    # colour, stop colour and alpha of every layer come from the source through ColorGlyph.create, whatever the format
+    from harness import C01_source
+
+    for name in ("solids+opacity", "fill with its own alpha channel + shape opacity", "palette variable whose default has an alpha channel + shape opacity",
+                 "gradient stops with palette variables", "userspace gradients, non-square viewBox"):
+        js.append(Job(f"source[{name}|user identity]", C01_source.job_source, source=name, user="identity"))
     return js
 
 
